@@ -17,10 +17,10 @@ Notation cv_service := (cv_service snake camel screaming).
 Notation cv_tmsgs := (cv_tmsgs snake camel screaming).
 Notation accept_topic := (accept_topic snake camel screaming).
 Notation cv_topic := (cv_topic snake camel screaming).
-Notation virtual_ok := (virtual_ok snake camel screaming true).
+Notation virtual_ok := (virtual_ok snake camel screaming).
 Notation method_ok := (method_ok snake).
-Notation method_msgs_ok := (method_msgs_ok snake camel screaming true).
-Notation topic_service_ok := (topic_service_ok snake camel screaming true).
+Notation method_msgs_ok := (method_msgs_ok snake camel screaming).
+Notation topic_service_ok := (topic_service_ok snake camel screaming).
 
 Lemma cv_virtual_ok ev name virt decl m is :
   cv_virtual ev name virt decl = Ok (m, is) -> virtual_ok name virt decl m.
